@@ -557,6 +557,8 @@ def constructs_in(text: str) -> list[str]:
 
 def attribute(text: str, a: Outcome, b: Outcome) -> str:
     """Name the construct that separates two outcomes of the same call."""
+    if a[0] == "ok" and b[0] == "ok" and not (isinstance(a[1], str) and isinstance(b[1], str)):
+        return "analysis"  # analyze() summaries (lists), not rendered text
     if a[0] == "ok" and b[0] == "ok":
         ma, mb = RE_MARK.findall(a[1]), RE_MARK.findall(b[1])
         if len(ma) == len(mb) and [k for k, _ in ma] == [k for k, _ in mb]:
@@ -996,7 +998,8 @@ class C09(Prop):
                 if case["loaders"].get(env_name, "dict") != "dict" or name not in case["templates"]:
                     res.labels.append("ed:skipped")
                     continue
-                new_src = case["templates"][name] + f"<ed{n}>"
+                # (the new text also mentions a new variable and filter, so that static analysis changes with it)
+                new_src = case["templates"][name] + f"<ed{n}>{{{{ edv{n} | append: '' }}}}"
                 edits.setdefault(env_name, {})[name] = new_src
                 shared.env(env_name).loader.templates[name] = new_src  # type: ignore[attr-defined]
                 for key in [k for k in shared.objs if k[0] == env_name and k[1] == "g" and k[2] == name]:
